@@ -225,6 +225,9 @@ def cmd_check(pid, tier, seed):
     out_lines = []
     seen = set()
     replayed = 0
+    traced = 0
+    # cheapest refuted harness first: its counterexample is the one extracted and replayed natively
+    violations.sort(key=lambda v: (kres[v["harness"]][2].get("seconds", 0) if v.get("harness") else -1))
     for v in violations:
         if v.get("harness"):
             c, m = v["check"], v["meta"]
@@ -237,8 +240,12 @@ def cmd_check(pid, tier, seed):
             rep = dict(property=pid, harness=m["pretty_name"], harness_file=m["original_file"], obligation=c["name"],
                        check_location="%s:%s" % (c["file"], c["line"]), check_function=c["function"], back_end="kani/cbmc",
                        repo_head=repo_head(), repo_dirty=repo_dirty())
-            # counterexample: re-run with --trace
-            tr = kanitrack.run_harness(m, os.path.join(CACHE, "run", "trace-%d" % os.getpid()), timeout=1800, trace=True)
+            # counterexample: re-run with --trace (bounded number per run: traces of large harnesses are expensive)
+            if traced < int(os.environ.get("VERIF_MAX_TRACES", "2")):
+                traced += 1
+                tr = kanitrack.run_harness(m, os.path.join(CACHE, "run", "trace-%d" % os.getpid()), timeout=1800, trace=True)
+            else:
+                tr = dict(checks=[], cbmc_cmd="(trace budget of this run used up; re-run the harness with `./verif kani-run --trace %s`)" % v["harness"])
             vals, locs = None, {}
             for tc in tr.get("checks", []):
                 if tc["verdict"] == "refuted" and tc["name"] == c["name"] and tc["line"] == c["line"] and tc.get("concrete_values") is not None:
